@@ -89,6 +89,24 @@ func (f fixedPartitioner) Partition(m *sarama.ProducerMessage, n int32) (int32, 
 }
 func (f fixedPartitioner) RequiresConsistency() bool { return false }
 
+// dynPartitioner: a user-supplied partitioner whose STATIC answer is "no consistency needed" while keyed messages do
+// need it (DynamicConsistencyPartitioner is documented to take precedence per message)
+type dynPartitioner struct{}
+
+func (dynPartitioner) Partition(m *sarama.ProducerMessage, n int32) (int32, error) {
+	if m.Key == nil {
+		return 0, nil
+	}
+	k, _ := m.Key.Encode()
+	h := fnv.New32a()
+	h.Write(k)
+	return int32(h.Sum32() % uint32(n)), nil
+}
+func (dynPartitioner) RequiresConsistency() bool { return false }
+func (dynPartitioner) MessageRequiresConsistency(m *sarama.ProducerMessage) bool {
+	return m.Key != nil
+}
+
 type event struct {
 	id   string
 	ok   bool
@@ -186,6 +204,8 @@ func run(c *gx.Ctl, pt string, leaderless int, keys string, nm int) *gx.Outcome 
 			inner = sarama.NewManualPartitioner(topic)
 		case "chash2":
 			inner = customCtor(topic)
+		case "cdyn":
+			inner = dynPartitioner{}
 		case "cneg":
 			inner = fixedPartitioner{func(n int32) (int32, error) { return -1, nil }}
 		case "cn":
@@ -408,9 +428,9 @@ func (r *rig) judge(pt string, leaderless int) *gx.Outcome {
 // Family enumerates partitioner x key pattern x every leaderless subset.
 func Family() []string {
 	var out []string
-	for _, pt := range []string{"hash", "ref", "random", "roundrobin", "manual", "cneg", "cn", "cerr"} {
+	for _, pt := range []string{"hash", "ref", "cdyn", "random", "roundrobin", "manual", "cneg", "cn", "cerr"} {
 		for _, keys := range []string{"none", "all", "mixed", "same"} {
-			if keys != "none" && keys != "all" && pt != "hash" && pt != "ref" {
+			if keys != "none" && keys != "all" && pt != "hash" && pt != "ref" && pt != "cdyn" {
 				continue
 			}
 			for lead := 0; lead < 1<<nparts; lead++ {
